@@ -32,4 +32,20 @@ def c11(check):
           "DESIGN.md §4 C11")
 
 
-EXTRA = [c10, c11]
+def c06(check):
+    check("C06", "exploration",
+          "Seeded search over refinement histories with invariants checked after every step: direct K-list histories (arbitrary "
+          "subsets of points, per-step meshes, sibling and cross merges, pickle round trips with re-applied weights), tetrahedral "
+          "histories (default set, unimodular images, trigonal wedge, constructor splitting, refinement), and real run() executions "
+          "in which every get_K_list / divide / exclude_equiv_points call is intercepted. Invariants: total weight 1, non-negative, "
+          "initial stars partition the grid with weight |star|/N, children tile the parent and split its weight, merges transfer "
+          "exactly the removed weight to a symmetry-equivalent survivor, tetrahedra tile the cell / their parent. Evidence over "
+          "sampled histories, lattices and groups.",
+          "Symmetry equivalence is decided by the harness's own group matrices (from generator names and lattice); tetrahedron "
+          "cover is tested on seeded interior sample points; completeness of merging is not demanded.",
+          "deterministic simulation: stateful seeded histories on the K-list with step-wise invariants, intercepted refinement "
+          "calls inside run(), minimised replay files",
+          "DESIGN.md §4 C06", engine="klist + simrun")
+
+
+EXTRA = [c06, c10, c11]
